@@ -140,6 +140,44 @@ type BinaryCopyReader struct {
 	typeMap  *pgtype.Map
 	reader   *CopyReader
 	scanners []Scanner
+	started  bool
+	end      error
+}
+
+// fill makes at least n unread bytes of the copy-in stream available within
+// the current chunk. The client is free to split the stream into CopyData
+// messages at any byte, a tuple (or the file header) could therefore span
+// multiple messages. The unread remainder of the current chunk is joined with
+// the chunks following it until n bytes are available. The error ending the
+// copy-in stream is returned, again, once the stream has ended.
+func (r *BinaryCopyReader) fill(n int) error {
+	for len(r.reader.Msg) < n {
+		if r.end != nil {
+			return r.end
+		}
+
+		rest := append([]byte(nil), r.reader.Msg...)
+		err := r.reader.Read()
+		if err != nil {
+			r.end = err
+			r.reader.Msg = rest
+			return err
+		}
+
+		r.reader.Msg = append(rest, r.reader.Msg...)
+	}
+
+	return nil
+}
+
+// truncated reports the end of the copy-in stream inside a tuple as an error,
+// any other error is returned as is.
+func truncated(err error) error {
+	if err == io.EOF {
+		return io.ErrUnexpectedEOF
+	}
+
+	return err
 }
 
 // Read reads a single row from the copy-in stream. The read row is returned as a
@@ -150,27 +188,30 @@ func (r *BinaryCopyReader) Read(ctx context.Context) (_ []any, err error) {
 		return nil, ctx.Err()
 	}
 
-	// NOTE: read the next chunk from the copy-in stream while the current chunk
-	// is empty. A chunk could consist of nothing but the file header.
-	for len(r.reader.Msg) == 0 {
-		err = r.reader.Read()
-		if err != nil {
+	// NOTE: the stream starts with the file header (signature, flags and the
+	// header extension length) which is skipped when present.
+	if !r.started {
+		r.started = true
+
+		header := len(CopySignature) + 8
+		err = r.fill(header)
+		if err != nil && len(r.reader.Msg) == 0 {
 			return nil, err
 		}
 
-		has := bytes.HasPrefix(r.reader.Msg, CopySignature)
-		if has {
-			_, err = r.reader.GetBytes(len(CopySignature))
-			if err != nil {
-				return nil, err
-			}
-
+		if len(r.reader.Msg) >= header && bytes.HasPrefix(r.reader.Msg, CopySignature) {
 			// NOTE: 2 x 32-bit integer fields are send after the signature which we ignore for now.
-			_, err = r.reader.GetBytes(8)
-			if err != nil {
-				return nil, err
-			}
+			r.reader.Msg = r.reader.Msg[header:]
 		}
+	}
+
+	err = r.fill(2)
+	if err != nil {
+		if len(r.reader.Msg) > 0 {
+			return nil, truncated(err)
+		}
+
+		return nil, err
 	}
 
 	fields, err := r.reader.GetUint16()
@@ -182,7 +223,7 @@ func (r *BinaryCopyReader) Read(ctx context.Context) (_ []any, err error) {
 	// This is easily distinguished from a tuple's field-count word. Nothing
 	// but the end of the copy-in stream is expected after the trailer.
 	if fields == math.MaxUint16 {
-		err = r.reader.Read()
+		err = r.fill(1)
 		if err != nil {
 			return nil, err
 		}
@@ -196,6 +237,11 @@ func (r *BinaryCopyReader) Read(ctx context.Context) (_ []any, err error) {
 
 	row := make([]any, fields)
 	for index := range fields {
+		err = r.fill(4)
+		if err != nil {
+			return nil, fmt.Errorf("unexpected field length: %w", truncated(err))
+		}
+
 		length, err := r.reader.GetUint32()
 		if err != nil {
 			return nil, fmt.Errorf("unexpected field length: %w", err)
@@ -205,6 +251,17 @@ func (r *BinaryCopyReader) Read(ctx context.Context) (_ []any, err error) {
 		if length == math.MaxUint32 {
 			// r.row[index] = nil
 			continue
+		}
+
+		// NOTE: a single value never exceeds the maximum message size, a larger
+		// length is not buffered.
+		if uint64(length) > uint64(r.reader.MaxMessageSize) {
+			return nil, fmt.Errorf("unexpected value: %w", buffer.NewMessageSizeExceeded(r.reader.MaxMessageSize, int(length)))
+		}
+
+		err = r.fill(int(length))
+		if err != nil {
+			return nil, fmt.Errorf("unexpected value: %w", truncated(err))
 		}
 
 		value, err := r.reader.GetBytes(int(length))
